@@ -169,8 +169,14 @@ def c17(ck):
         for t in texts:
             for how in ("text", "value"):
                 add(op, "%s %s %s" % (op, how, hx(t)), {"text": t, "how": how})
+    # the other wire structs of the built-in interface (arguments, description reply, parameters of the standard errors):
+    # value -> JSON -> value on the implementation (their text -> value -> text direction is in `small` above)
+    for kind_ in ("getinfoargs", "descr_args", "descr_reply", "err_iface", "err_param", "err_method", "err_notimpl"):
+        vals = [None] if kind_ == "getinfoargs" else ([None] if kind_ != "descr_args" else []) + rng.sample(STRS, min(len(STRS), 4 if quick else 12)) + ["", "a.b"]
+        for v in vals:
+            add("mk_aux", "mk_aux %s %s" % (kind_, "none" if v is None else hx(v)), {"type": kind_, "value": v})
     impl = run_lines(harness_bin("h_wire"), lines, shards=8)
-    model = run_lines(DRIVER, lines, shards=8) if model_ok else {}
+    model = run_lines(DRIVER, [l for l in lines if " mk_aux " not in l], shards=8) if model_ok else {}
     nd = 0
     for cid, (kind, info) in meta.items():
         ck.case(lines[int(cid[1:])].split(" ", 1)[1], sample={"op": kind, "case": info} if rng.random() < 0.004 else None)
